@@ -87,7 +87,7 @@ def main(ctx):
     tier = ctx.tier
     ev.rule = ("inputs: every sorted multiset of <= 3 ranges over the configured addresses (both sides of the "
                "10000 bank boundary) x counts x reach {0..3} x limit {none,1,2,5}, emitted by TLC; plus seeded "
-               "random sets of up to 12 ranges.  Non-trivial: the input has at least two ranges that overlap, "
+               "random sets of up to 12 ranges, and multi-bank sets with ranges longer than the default transfer limits.  Non-trivial: the input has at least two ranges that overlap, "
                "nest, touch or lie within reach (so a merge decision is taken).")
     ev.assumptions = [
         "ranges have count >= 1 (a zero-count 'range' requests no register; chains of them extend a merged "
@@ -125,6 +125,21 @@ def main(ctx):
             inp.append([a, c])
         inp.sort()
         jobs.append(("mergeP", (inp, rng.choice([0, 1, 2, 5, 10]), rng.choice([0, 0, 3, 7, 16])), 0))
+    # several register banks in one input, merged ranges longer than the default transfer limits (no limit given: 1968 for
+    # coils / discrete inputs, 123 for registers -- per emitted range, whatever came before it)
+    for k in range(300 if ctx.quick else 5000):
+        inp = []
+        for bank_base in rng.sample([1, 10001, 30001, 40001, 100001, 400001], rng.randint(1, 3)):
+            a = bank_base + rng.choice([0, 5, 100])
+            for _ in range(rng.randint(1, 3)):
+                c = rng.choice([1, 60, 123, 124, 200, 300])
+                if a >= bank_base and a // 10000 == (a + c - 1) // 10000 == bank_base // 10000:
+                    inp.append([a, c])            # (every requested range lies inside one register bank)
+                a += c + rng.choice([-20, 0, 1, 2, 7])
+        if not inp:
+            continue
+        inp.sort()
+        jobs.append(("mergeP", (inp, rng.choice([0, 1, 2, 5]), rng.choice([0, 0, 0, 50, 123])), 0))
     results = core.pmap(_work, jobs)
     lines = [ln for r in results for ln in r]
     for ln in lines:
